@@ -25,7 +25,19 @@ def enum_schedules(maxlen, maxdelay):
 
 
 def run(chk):
-    chk.prove([resolve_tr.translate])
+    if not chk.prove([resolve_tr.translate]):
+        # say which theorem is affected: C08_order / C08_order_always live in Proofs/ResolveOrderProofs.v (facts:
+        # list_store_by_position, error_condition), C08_retry_order in Proofs/ResolveRetryProofs.v (re-queue facts)
+        if chk.translator_errors:
+            # Gen/SrcResolve.v is stale (last successful translation): nothing is established about the current source
+            chk.notes.append("the translator refused the current source: no theorem of C08 is re-established (%s)" % "; ".join(chk.translator_errors)[:300])
+        else:
+            for thms, target in (("C08_order, C08_order_always", "Proofs/ResolveOrderProofs.vo"), ("C08_retry_order", "Proofs/ResolveRetryProofs.vo")):
+                ok, _ = core.coq_make([target])
+                chk.notes.append("%s: %s against the current source (%s %s)" % (thms, "still proved" if ok else "NOT proved", target, "builds" if ok else "does not build"))
+        chk.cov["still_proved"] = [n for n in chk.notes if "still proved" in n]
+        for n in chk.notes:
+            print("NOTE property=C08 " + n)
     cases = rc.corpus_cases("C08") + enum_schedules(4 if chk.thorough else 3, 3 if chk.thorough else 2)
     # an anchor that resolves late keeps postponed rounds alive: add chained anchors
     n = 1500 if chk.thorough else 250
